@@ -31,7 +31,7 @@
  * and exhaustive.  No quantifier, no code. */
 #define RR_HB(b) (((b) & 0x80u) != 0)
 /* "old body word g_k/4 (if g_k is a word start below word index lim) has no high bit" */
-#define RR_NO_END_BELOW(lim) ((g_k % 4 == 0 && g_k / 4 < (size_t) (lim)) ==> !RR_HB(g_b))
+#define RR_NO_END_BELOW(lim) (((g_k & 3) == 0 && (g_k >> 2) < (size_t) (lim)) ==> !RR_HB(g_b))
 
 #define RR_TTL_OK(t) ((t) >= 1 && (t) <= NNI_MAX_MAX_TTL)
 
